@@ -44,7 +44,10 @@ def unchanged_ds(S, ds, snap):
     yield "metadata-unchanged", dict(ds.attrs) == snap["attrs"]
 
 
+APPENDED = {"a(x)+appended(w)": "w"}       # states in which an axis was appended to the dataset directly (no variable uses it)
+
 STATES = {
+    "a(x)+appended(w)": [("a", ["x"])],
     "empty": [],
     "a(x)": [("a", ["x"])],
     "a(x),b(x,y)": [("a", ["x"]), ("b", ["x", "y"])],
@@ -67,6 +70,11 @@ def make_dataset(S, state):
             axes.append(da.Axis(S.snapshot(labels[d]), d))
         data = S.arraynd("ds.%s.data" % key, "f", tuple(S.n(labels[d]) for d in dims))
         ds[key] = da.DimArray(data, axes=axes)
+    if state in APPENDED:
+        W = S.array1d("ds.w", "f")
+        assume_order(S, W, "unique")
+        labels[APPENDED[state]] = W
+        ds.axes.append(da.Axis(S.snapshot(W), APPENDED[state]))
     ds.attrs["title"] = "t"
     return ds, labels
 
@@ -156,7 +164,8 @@ class DatasetSetItem(Contract):
             for d in dict.__getitem__(ds, k).dims:
                 if d not in used:
                     used.append(d)
-        yield "dataset-dimensions-are-exactly-those-in-use", sorted(ax.name for ax in ds.axes) == sorted(used)
+        extra = [APPENDED[case["state"]]] if case.get("state") in APPENDED and APPENDED[case["state"]] not in used and not env.get("appended_axis_was_used") else []
+        yield "dataset-dimensions-are-exactly-those-in-use", sorted(ax.name for ax in ds.axes) == sorted(used + extra)
         yield "surviving-axis-objects-are-the-old-ones", all(ds.axes[d] is snap["axes"][snap["dims"].index(d)] for d in snap["dims"] if d in [ax.name for ax in ds.axes])
         yield "dataset-metadata-kept", dict(ds.attrs) == snap["attrs"]
 
@@ -199,7 +208,8 @@ class DatasetDelItem(Contract):
             for d in dict.__getitem__(ds, k).dims:
                 if d not in used:
                     used.append(d)
-        yield "dataset-dimensions-are-exactly-those-in-use", sorted(ax.name for ax in ds.axes) == sorted(used)
+        extra = [APPENDED[case["state"]]] if case.get("state") in APPENDED and APPENDED[case["state"]] not in used else []
+        yield "dataset-dimensions-are-exactly-those-in-use", sorted(ax.name for ax in ds.axes) == sorted(used + extra)
 
     def canaries(self, S, case, env, result):
         yield "nothing-removed", case["key"] in dict.keys(env["ds"])
